@@ -260,7 +260,11 @@ def write_evidence(prop, tier, seed, merged, wall, rule, assumptions, verdict, e
     ev = {'property_id': prop, 'tier': tier, 'seed': int(seed), 'level': 'exploration', 'coverage': cov,
           'assumptions': assumptions, 'wall_s': round(wall, 2),
           'violations': sum(1 for v in merged['violations'] if not v.get('known'))}
-    path = os.path.join(VERIF_DIR, 'evidence', '%s.json' % prop)
+    # runs against a scratch copy of the repository (NV_REPO=..., used by the mutant / equivalence tools) must not overwrite the
+    # evidence of the real tree
+    sub = 'evidence' if os.path.realpath(REPO) == os.path.realpath('/repo') else 'evidence-scratch'
+    os.makedirs(os.path.join(VERIF_DIR, sub), exist_ok=True)
+    path = os.path.join(VERIF_DIR, sub, '%s.json' % prop)
     tmp = path + '.%d.tmp' % os.getpid()
     with open(tmp, 'w') as f:
         json.dump(ev, f, indent=1, sort_keys=True, default=repr)
